@@ -7,6 +7,7 @@ from .common import call_shape, fn_table, gen_faults, gen_tape, simple_sel
 PROP = "C01"
 JUDGE = ("C01.",)
 PROGRAMS = ["forms"]
+RUNS = {"quick": 3000, "thorough": 150000}
 
 GEN_FNS = ("gen", "genloop")
 
